@@ -37,7 +37,7 @@ PROBES = ['cut-inside-line', 'cut-between-cr-and-lf', 'several-lines-one-read',
           'authenticated-tcp', 'authenticated-unix-agree', 'authenticated-unix-error',
           'exhausted-closed', 'junk-closed', 'cookie-auth-completed', 'agree-without-ok',
           'bytes-after-final-line-same-read', 'keyring-with-other-entries',
-          'custom-preference-order', 'home-unset']
+          'custom-preference-order', 'home-unset', 'earlier-connection-same-process']
 COMPONENTS = {
     'real': ['txdbus.authentication.ClientAuthenticator (pass-through tracing subclass on the '
              'documented IDBusAuthenticator.handleAuthMessage hook)',
@@ -271,6 +271,24 @@ def scenario(ctx):
         else:
             kr = None
         ctx.config.update(accept=[a.decode() for a in accept], agree=agree, keyring=kstate)
+        if ds.flag(0.3):
+            # the process has connected before: to another conforming server (its own accepted
+            # mechanisms, its own cookie secret under the same cookie id), to completion
+            sim.probe('earlier-connection-same-process')
+            f0 = t_client.DBusClientFactory()
+            Obs(sim, 'connect0').watch(f0.getConnection())
+            p0 = sim.call(node, f0.buildProtocol, None)
+            c0 = net.Connection(sim, 'c0', node, None, unix=unix)
+            s0 = RefSaslServer([m for m in MECHS if ds.flag(0.6)], agree_fd=not ds.flag(0.5),
+                               keyring=kr if kstate != 'missing' else None,
+                               urandom=lambda n: bytes((i * 53 + 7) & 0xff for i in range(n)))
+            c0.attach(p0, s0)
+            sched0 = Scheduler(ctx, allow_stall=False)
+            sched0.run(300)
+            sched0.drain(200)
+            if c0.a.state == net.OPEN and ds.flag(0.5):
+                sim.call(node, p0.disconnect)
+                sched0.drain(100)
         server = RefSaslServer(accept, agree_fd=agree, keyring=kr if kstate != 'missing' else None,
                                urandom=lambda n: bytes((i * 37 + 11) & 0xff for i in range(n)))
         server.messy_keyring = bool(pre.get('messy', ds.flag(0.5)))
